@@ -18,7 +18,10 @@ def cfg_with(**kw):
 _NOISE = [0]
 
 
-def run_lines(drv, cfg, items, extra_ops=(), dates=True):
+_RESTORE = [False]
+
+
+def run_lines(drv, cfg, items, extra_ops=(), dates=True, config_edits=None):
     """items: [(lang, text)] single- or multi-line. -> list of results (one per item): the
     driver result dict of the execute op."""
     # every fourth batch runs after a neutral piece of API history (see gen_hostile.config_ops); the flag is set on the caller's
@@ -28,11 +31,16 @@ def run_lines(drv, cfg, items, extra_ops=(), dates=True):
     # every twelfth batch runs on a calculator constructed through load_from_json from the shipped configuration text (plus the date
     # patterns default() registers): the other public constructor must give the same calculator; the batch after it gets a new default one
     cfg['json_built'] = (_NOISE[0] % 12 == 5)
-    cfg['restore_default'] = (_NOISE[0] % 12 == 6)
+    cfg['restore_default'] = (_NOISE[0] % 12 == 6) or _RESTORE[0]
+    _RESTORE[0] = False
+    if config_edits is not None:
+        # the caller wants this batch on a calculator built from the configuration text with its own (meaningful) edits
+        cfg['json_built'], cfg['restore_default'] = True, False
+        _RESTORE[0] = True
     if cfg['json_built']:
         # ... with edits to the text that carry no meaning: the items of each unit table (every item has its own index) and the words
         # of each word group listed in another order; monitors whose lines contain no dates also run without the date patterns
-        cfg['json_edits'] = gh.neutral_config_edits(_NOISE[0])
+        cfg['json_edits'] = gh.neutral_config_edits(_NOISE[0]) + list(config_edits or [])
         cfg['json_dates'] = dates or (_NOISE[0] % 24 == 5)
     else:
         cfg.pop('json_edits', None)
